@@ -1,5 +1,6 @@
 #!/bin/bash
 # usage: build.sh <outdir> [repo]   builds drv_<prog> and drv_<prog>_asan for every bpf/*.c of the repo's CURRENT tree
+# ONLY=<prog> restricts the build to one program, NOASAN=1 skips the sanitizer variant
 set -eu
 here=$(cd "$(dirname "$0")" && pwd)
 out=${1:?outdir}; repo=${2:-${VERIF_REPO:-/repo}}
@@ -7,10 +8,11 @@ mkdir -p "$out"
 pids=()
 for src in "$repo"/bpf/*.c; do
   p=$(basename "$src" .c)
+  if [ -n "${ONLY:-}" ] && [ "$p" != "$ONLY" ]; then continue; fi
   python3 "$here/gen.py" "$repo/bpf" "$p.c" > "$out/gen_$p.inc"
   common=(-std=gnu11 -g -I "$here/bpfshim" -I "$repo/bpf" -I "$here" -I "$out" -DPROG_SRC="\"$p.c\"" -DGEN_INC="\"gen_$p.inc\"" -DWITH_ENUM -DPROG_$p -Wno-everything "$here/driver.c")
   clang -O1 "${common[@]}" -o "$out/drv_$p" & pids+=($!)
-  clang -O1 -fsanitize=address -fsanitize-recover=address "${common[@]}" -o "$out/drv_${p}_asan" & pids+=($!)
+  if [ -z "${NOASAN:-}" ]; then clang -O1 -fsanitize=address -fsanitize-recover=address "${common[@]}" -o "$out/drv_${p}_asan" & pids+=($!); fi
 done
 rc=0
 for pid in "${pids[@]}"; do wait $pid || rc=2; done
